@@ -21,14 +21,14 @@ CLAIMS = {
  "C07": ("proof", "5/C07", "success <=> draw < prob, at most one draw, exact error flags and no-draw cases are postconditions of Network.perform_action with the draw a symbolic real in [0,1)."),
  "C08": ("proof", "5/C08", "obs[r][c] = state[r][c] if Entitled(action, result, r, c) else 0 (truthful, minimal and complete are the three directions of this one equality) is a postcondition of State.get_observation for every action kind, with the subnet-scan loop under an invariant; HostVector.observe's ten switches are proved cell-exact; auxiliary row and initial observation likewise."),
  "C09": ("proof", "5/C09", "Layout constants, name->index maps, the vectorized row of every host, the initial tensor and the observation shape are postconditions of _update_vector_idxs, _initialize, vectorize, tensorize, generate_initial_state, get_state_dims/get_observation_dims (loop invariants for all enumerate loops). Round trips through Observation.from_numpy / State.from_numpy / numpy() / numpy_flat() are proved modulo the assumed NumPy contract (flatten is row-major and fresh, reshape inverts it). NOT covered: the readable decoders (get_readable)."),
- "C10": ("proof", "5/C10", "Space bounds cover every value (min/max loop invariants + in-box lemma), observation-space shape equals the observation's and the scenario's dims (NASimEnv.__init__), every member of either action space decodes without error (python ints, NumPy integer scalars, lists, tuples), reset/step tuple shapes. NOT covered: integer ndarrays as parameter vectors, Gymnasium's own contains()."),
+ "C10": ("proof", "5/C10", "Space bounds cover every value (min/max loop invariants + in-box lemma), observation-space shape equals the observation's and the scenario's dims (NASimEnv.__init__), every member of either action space decodes without error (python ints, NumPy integer scalars, lists, tuples), reset/step tuple shapes; NASimGymEnv.__init__ and nasim.make_benchmark/load/generate hand the mode switches through unchanged. Bounded: run-time monitor over all registered gymnasium ids (module-level registration table). NOT covered: integer ndarrays as parameter vectors beyond the run-time integer tag of action targets, Gymnasium's own contains()."),
  "C11": ("other", "5/C11", "Proved unbounded: parameterised decode (incl. wrap-around, undefined pairs -> zero-cost no-op), nvec, advertised size, flat index->action, action mask (loop invariant). BOUNDED only (concrete-structured scenarios, real loops executed symbolically): load_action_list enumeration and exploit_map/privesc_map first-definition-wins, because the unbounded engine has no symbolic list-append / nested symbolic dict."),
  "C12": ("proof", "5/C12", "Non-interference: the dynamics outputs of generative_step/step are proved equal to themselves with the three mode flags renamed (solver-discharged reads-frame), info is the action result, observation construction is proved read-only, and parameterised decoding yields the scenario's definitions (same records as the flat list)."),
  "C14": ("other", "5/C14", "Dynamics: the helper contracts (spec.* postconditions, discharged unbounded) fix every output of perform_action/reset as a function of scenario, state, action and the one draw, so equal seeds give equal trajectories given NumPy's seeded stream (assumed); a generic frame obligation on every function under contract forbids drawing from / seeding the global RNG outside the declared stochastic functions. Generation: BOUNDED - same seed twice in-process, an order-permuting set shim (two iteration orders) over the parameter grid, and a PYTHONHASHSEED sweep in sub-processes over generated benchmarks; fingerprints of hosts, firewall, exploits, escalations, sensitive hosts must agree."),
- "C15": ("other", "5/C15", "Proved unbounded (all num_hosts, all subnet counts): _generate_subnets (layout, sizes sum to num_hosts+1), _generate_topology (loop invariant: symmetric, self-connected, only DMZ public, user tree), _generate_address_space_bounds, _generate_sensitive_hosts (exactly (2,0) and one user host, requested values), _get_action_probs (length, ranges, requested values). BOUNDED stand-in for the stochastic functions: the full well-formedness postcondition is evaluated as a run-time contract on every scenario the real generator returns over a parameter grid x seeds; three recorded known findings with witnesses (alpha_V = 1, exploit names exhausted, escalation names exhausted)."),
+ "C15": ("other", "5/C15", "Proved unbounded (all num_hosts, all subnet counts): _generate_subnets (layout, sizes sum to num_hosts+1), _generate_topology (loop invariant: symmetric, self-connected, only DMZ public, user tree), _generate_address_space_bounds, _generate_sensitive_hosts (exactly (2,0) and one user host, requested values), _get_action_probs (length, ranges, requested values). BOUNDED stand-in for the stochastic functions: the full well-formedness postcondition is evaluated as a run-time contract on every scenario the real generator returns over a parameter grid x seeds; plus unit-level run-time contracts on the two name-collision retry loops (_generate_exploits, _generate_privescs) over many seeds; three recorded known findings with witnesses (alpha_V = 1, exploit names exhausted, escalation names exhausted)."),
  "C16": ("other", "5/C16", "Proved unbounded: G1 (topology is the DMZ/sensitive/user tree with parent(k) < k, DMZ public). BOUNDED stand-in for G2-G4 and the conclusion: for every generated scenario of the grid and every shipped benchmark a plan is computed by monotone closure on the real environment with all stochastic actions succeeding and replayed through NASimEnv.step, which must end terminated. The unbounded induction lemma over generator postconditions (DESIGN 5/C16) was not built."),
  "C20": ("other", "5/C20", "Proved unbounded: score bound = sum of sensitive values + sum of discovery values - hops (sum-loop invariants), and the C04/C05 obligations it rests on. BOUNDED exhaustive (all symmetric topologies on <= 5 subnets, <= 3 sensitive subnets) plus structured larger instances (chains, stars, rings, seeded random graphs with up to 8 sensitive subnets, Held-Karp reference): hop function equals its documented quantity; hops <= Steiner bound fails on branching topologies (known finding). NOT decided: the whole-episode inequality (optimisation over histories)."),
- "C17": ("other", "5/C17", "Proved unbounded (lists of any length with symbolically typed entries): the leaf validators _validate_subnets, _validate_topology (nested loop invariants), _validate_os/_services/_processes, _validate_scan_cost, _parse_step_limit accept every valid value. Whole loader: BOUNDED stand-in: the real loader is executed symbolically on concrete-structured documents (nine shipped files + synthetic ones covering asymmetric topology, several public subnets, empty allow-lists, prob 1.0, no OS, empty escalation section, no step limit, negative/fractional values, host firewalls) whose numeric leaves are symbolic over the documented ranges; obligations: never raises, and the scenario equals the document field by field. Counterexamples are concretised to YAML and replayed through the real load_scenario."),
+ "C17": ("other", "5/C17", "Proved unbounded (lists of any length with symbolically typed entries): the leaf validators _validate_subnets, _validate_topology (nested loop invariants), _validate_os/_services/_processes, _validate_scan_cost, _parse_step_limit accept every valid value. Whole loader: BOUNDED stand-in: the real loader is executed symbolically on concrete-structured documents (nine shipped files + synthetic ones covering one host configuration shared by several hosts (YAML anchor/alias), asymmetric topology, several public subnets, empty allow-lists, prob 1.0, no OS, empty escalation section, no step limit, negative/fractional values, host firewalls) whose numeric leaves are symbolic over the documented ranges; obligations: never raises, and the scenario equals the document field by field. Counterexamples are concretised to YAML and replayed through the real load_scenario."),
  "C18": ("other", "5/C18", "Proved unbounded: a normal return of each leaf validator (subnets, topology, name lists, scan costs, step limit) implies its rule for lists of any length. Whole loader: BOUNDED stand-in: for each of ~75 rule violations of the catalogue a transformer breaks exactly that rule in every base document (symbolic leaf where the rule is numeric); on every symbolic path the real loader must raise. Replay: concretised YAML through the real load_scenario."),
  "C19": ("other", "5/C19", "Global-heap frame obligations (no undeclared class-attribute/module-global reads or writes) are discharged for every operation; every constructor path installs Layout(scenario) whatever the previous global state; make_benchmark_scenario leaves no stale seed. Equal-layout independence lemma discharged; the any-layout lemma is REFUTED and recorded as a known finding (witness replayed on every run)."),
  "C13": ("proof", "5/C13", "Purity is a frame obligation over the heap (input tensor cell, env fields, current state, last obs); freshness is an allocation-identity obligation; step/generative_step agreement is a postcondition of NASimEnv.step."),
